@@ -115,21 +115,36 @@ pub mod hpack {
             self.inner.update_max_size(val);
         }
 
-        /// Encodes one header list (name, value, sensitive). Fields are built
-        /// with `Header::new`, i.e. exactly what the decoder would accept.
-        pub fn encode(&mut self, fields: &[(Vec<u8>, Vec<u8>, bool)]) -> Result<Vec<u8>, String> {
-            let mut hs = Vec::new();
-            for (n, v, sensitive) in fields {
+        /// Encodes one header list (name, value, sensitive, nameless). Fields are built
+        /// with `Header::new`, i.e. exactly what the decoder would accept. `nameless`
+        /// reproduces what iterating a `HeaderMap` yields for the second and later
+        /// values of one name: a field whose name is `None`.
+        pub fn encode(&mut self, fields: &[(Vec<u8>, Vec<u8>, bool, bool)]) -> Result<Vec<u8>, String> {
+            let mut hs: Vec<Header<Option<http::header::HeaderName>>> = Vec::new();
+            for (n, v, sensitive, nameless) in fields {
                 let mut h = Header::new(Bytes::copy_from_slice(n), Bytes::copy_from_slice(v))
                     .map_err(|e| format!("{:?}", e))?;
                 if let Header::Field { ref mut value, .. } = h {
                     value.set_sensitive(*sensitive);
                 }
-                hs.push(h.into());
+                match h {
+                    Header::Field { value, .. } if *nameless => {
+                        if hs.is_empty() {
+                            return Err("nameless first field".into());
+                        }
+                        hs.push(Header::Field { name: None, value })
+                    }
+                    h => hs.push(h.into()),
+                }
             }
             let mut dst = BytesMut::new();
             self.inner.encode(hs, &mut dst);
             Ok(dst.to_vec())
+        }
+
+        /// (entries newest first, size, max_size)
+        pub fn table(&self) -> (Vec<(Vec<u8>, Vec<u8>)>, usize, usize) {
+            self.inner.verif_table()
         }
 
         /// `{:?}` of the encoder (table, pending size update).
